@@ -32,6 +32,9 @@ type Line struct {
 	Text string
 	Loc  string // location tag of the line ("" for untagged and for M/8/% lines)
 	Recs []Rec
+	// Alt is the same line with different rdata / TTL (same owner, type and tag);
+	// "" where no variant is defined.
+	Alt string
 }
 
 // A builds a '+' line. weight "" = default.
@@ -45,7 +48,12 @@ func A(owner, ip, ttl, loc, weight string) Line {
 		typ = dns.TypeAAAA
 	}
 	o, w := splitWild(owner)
-	return Line{Text: t, Loc: loc, Recs: []Rec{{Owner: o, Wild: w, Type: typ, Loc: loc, Rdata: ip}}}
+	altIP := "198.51.100.200"
+	if typ == dns.TypeAAAA {
+		altIP = "2001:db8::c8"
+	}
+	return Line{Text: t, Loc: loc, Recs: []Rec{{Owner: o, Wild: w, Type: typ, Loc: loc, Rdata: ip}},
+		Alt: fmt.Sprintf("+%s,%s,777,,%s", owner, altIP, loc)}
 }
 
 func splitWild(owner string) (string, bool) {
@@ -81,7 +89,8 @@ func NS(zone, ip, ns, ttl, loc string) Line {
 	host := expand(ns, "ns", zone)
 	recs := []Rec{{Owner: strings.ToLower(zone), Type: dns.TypeNS, Loc: loc, Rdata: host}}
 	recs = append(recs, addrRec(host, ip, loc)...)
-	return Line{Text: fmt.Sprintf("&%s,%s,%s,%s,,%s", zone, ip, ns, ttl, loc), Loc: loc, Recs: recs}
+	return Line{Text: fmt.Sprintf("&%s,%s,%s,%s,,%s", zone, ip, ns, ttl, loc), Loc: loc, Recs: recs,
+		Alt: fmt.Sprintf("&%s,,changed.other.org,777,,%s", zone, loc)}
 }
 
 // Dot builds a '.' line (derived SOA + NS + optional address).
@@ -98,7 +107,8 @@ func Dot(zone, ip, ns, ttl, loc string) Line {
 // SOA builds a 'Z' line.
 func SOA(zone, loc string) Line {
 	return Line{Text: fmt.Sprintf("Z%s,a.ns.example.com,hostmaster.example.com,1,7200,1800,604800,120,300,,%s", zone, loc), Loc: loc,
-		Recs: []Rec{{Owner: strings.ToLower(zone), Type: dns.TypeSOA, Loc: loc}}}
+		Recs: []Rec{{Owner: strings.ToLower(zone), Type: dns.TypeSOA, Loc: loc}},
+		Alt:  fmt.Sprintf("Z%s,changed.other.org,hostmaster.example.com,2,7200,1800,604800,120,777,,%s", zone, loc)}
 }
 
 // MX builds an '@' line.
@@ -113,14 +123,16 @@ func MX(owner, ip, host, dist, ttl, loc string) Line {
 func CNAME(owner, target, ttl, loc string) Line {
 	o, w := splitWild(owner)
 	return Line{Text: fmt.Sprintf("C%s,%s,%s,,%s", owner, target, ttl, loc), Loc: loc,
-		Recs: []Rec{{Owner: o, Wild: w, Type: dns.TypeCNAME, Loc: loc, Rdata: target}}}
+		Recs: []Rec{{Owner: o, Wild: w, Type: dns.TypeCNAME, Loc: loc, Rdata: target}},
+		Alt:  fmt.Sprintf("C%s,changed.other.org,777,,%s", owner, loc)}
 }
 
 // TXT builds a TXT (') line.
 func TXT(owner, text, ttl, loc string) Line {
 	o, w := splitWild(owner)
 	return Line{Text: fmt.Sprintf("'%s,%s,%s,,%s", owner, text, ttl, loc), Loc: loc,
-		Recs: []Rec{{Owner: o, Wild: w, Type: dns.TypeTXT, Loc: loc, Rdata: text}}}
+		Recs: []Rec{{Owner: o, Wild: w, Type: dns.TypeTXT, Loc: loc, Rdata: text}},
+		Alt:  fmt.Sprintf("'%s,changed,777,,%s", owner, loc)}
 }
 
 // HTTPS builds an 'H' line.
@@ -147,8 +159,10 @@ type Item struct {
 	Lines  []Line
 	Remove []string // exact text of skeleton lines this item removes
 	Why    string
-	// Core items take part in the largest subsets of the thorough tier.
-	Core bool
+	// Core items take part in the largest subsets of the thorough tier, Quick
+	// items (a subset of Core) in the largest subsets of the quick tier.
+	Core  bool
+	Quick bool
 	// ECSMap: the item declares a client-subnet ('8') map, ECS clients are added.
 	ECSMap bool
 	// MayLocate lists (client id -> location) assignments this item can cause
@@ -204,59 +218,59 @@ func everyClient(loc string) map[string][]string {
 // numbers in Why refer to its table).
 func Items() []Item {
 	it := []Item{
-		{ID: "w1", Core: true, Why: "1 plain A, explicit TTL", Lines: []Line{A("www.example.com", "192.0.2.1", "300", "", "")}},
-		{ID: "w2aa", Core: true, Why: "2 default TTL, located: second candidate for an aa client", Lines: []Line{A("www.example.com", "192.0.2.2", "", "aa", "")}},
+		{ID: "w1", Quick: true, Core: true, Why: "1 plain A, explicit TTL", Lines: []Line{A("www.example.com", "192.0.2.1", "300", "", "")}},
+		{ID: "w2aa", Quick: true, Core: true, Why: "2 default TTL, located: second candidate for an aa client", Lines: []Line{A("www.example.com", "192.0.2.2", "", "aa", "")}},
 		{ID: "w3bb", Core: true, Why: "3 other location", Lines: []Line{A("www.example.com", "192.0.2.3", "300", "bb", "")}},
 		{ID: "w6", Why: "4 AAAA", Lines: []Line{A("www.example.com", "2001:db8::1", "300", "", "")}},
 		{ID: "w0", Why: "5 weight 0", Lines: []Line{A("www.example.com", "192.0.2.9", "300", "", "0")}},
-		{ID: "cn", Core: true, Why: "6 CNAME", Lines: []Line{CNAME("c.example.com", "www.example.com", "300", "")}},
-		{ID: "wild", Core: true, Why: "7 wildcard under w", Lines: []Line{A("*.w.example.com", "192.0.2.10", "300", "", "")}},
-		{ID: "wildaa", Core: true, Why: "8 located wildcard", Lines: []Line{A("*.w.example.com", "192.0.2.11", "300", "aa", "")}},
+		{ID: "cn", Quick: true, Core: true, Why: "6 CNAME", Lines: []Line{CNAME("c.example.com", "www.example.com", "300", "")}},
+		{ID: "wild", Quick: true, Core: true, Why: "7 wildcard under w", Lines: []Line{A("*.w.example.com", "192.0.2.10", "300", "", "")}},
+		{ID: "wildaa", Quick: true, Core: true, Why: "8 located wildcard", Lines: []Line{A("*.w.example.com", "192.0.2.11", "300", "aa", "")}},
 		{ID: "wildbb", Core: true, Why: "8' wildcard of the other location (visible through the closer map of item 30)", Lines: []Line{A("*.w.example.com", "192.0.2.14", "300", "bb", "")}},
 		{ID: "xw", Core: true, Why: "9 own record beats the wildcard", Lines: []Line{A("x.w.example.com", "192.0.2.12", "300", "", "")}},
-		{ID: "wildapex", Core: true, Why: "10 wildcard at the zone cut; must not reach into sub. or deleg.", Lines: []Line{TXT("*.example.com", "wild", "300", "")}},
+		{ID: "wildapex", Quick: true, Core: true, Why: "10 wildcard at the zone cut; must not reach into sub. or deleg.", Lines: []Line{TXT("*.example.com", "wild", "300", "")}},
 		{ID: "ab", Why: "11 empty non-terminal b", Lines: []Line{A("a.b.example.com", "192.0.2.20", "300", "", "")}},
-		{ID: "sub", Core: true, Why: "12 nested authoritative zone", Lines: []Line{Dot("sub.example.com", "192.0.2.54", "a", "3600", "")}},
-		{ID: "xsub", Core: true, Why: "13 data in (or, without 12, at the place of) the nested zone", Lines: []Line{A("x.sub.example.com", "192.0.2.30", "300", "", "")}},
+		{ID: "sub", Quick: true, Core: true, Why: "12 nested authoritative zone", Lines: []Line{Dot("sub.example.com", "192.0.2.54", "a", "3600", "")}},
+		{ID: "xsub", Quick: true, Core: true, Why: "13 data in (or, without 12, at the place of) the nested zone", Lines: []Line{A("x.sub.example.com", "192.0.2.30", "300", "", "")}},
 		{ID: "wildsub", Why: "14 wildcard of the nested zone", Lines: []Line{A("*.sub.example.com", "192.0.2.31", "300", "", "")}},
-		{ID: "deleg", Core: true, Why: "15 delegation with in-bailiwick glue", Lines: []Line{NS("deleg.example.com", "192.0.2.55", "ns.deleg.example.com", "3600", "")}},
-		{ID: "delegaa", Core: true, Why: "16 located NS, out-of-zone target", Lines: []Line{NS("deleg.example.com", "", "ns2.other.org", "3600", "aa")}},
+		{ID: "deleg", Quick: true, Core: true, Why: "15 delegation with in-bailiwick glue", Lines: []Line{NS("deleg.example.com", "192.0.2.55", "ns.deleg.example.com", "3600", "")}},
+		{ID: "delegaa", Quick: true, Core: true, Why: "16 located NS, out-of-zone target", Lines: []Line{NS("deleg.example.com", "", "ns2.other.org", "3600", "aa")}},
 		{ID: "below", Why: "17 occluded data below the cut", Lines: []Line{A("below.deleg.example.com", "192.0.2.40", "300", "", "")}},
 		{ID: "mx", Why: "18 MX with expansion and address (additional)", Lines: []Line{MX("example.com", "192.0.2.60", "mx1", "10", "300", "")}},
 		{ID: "txt", Why: "23 TXT", Lines: []Line{TXT("txt.example.com", "hello world", "300", "")}},
 		{ID: "https", Why: "26 HTTPS with root target; owner-address additional processing", Lines: []Line{HTTPS("www.example.com", ".", "300", "", "1", "alpn=h2")}},
 		// 28: byte-order neighbours for the v2 closest-key walk, same-name-other-location neighbours
-		{ID: "na", Core: true, Why: "28 neighbour a", Lines: []Line{A("a.example.com", "192.0.2.81", "300", "", "")}},
+		{ID: "na", Quick: true, Core: true, Why: "28 neighbour a", Lines: []Line{A("a.example.com", "192.0.2.81", "300", "", "")}},
 		{ID: "nb", Core: true, Why: "28 neighbour b", Lines: []Line{A("b.example.com", "192.0.2.82", "300", "", "")}},
 		{ID: "na-", Why: "28 neighbour a-", Lines: []Line{A("a-.example.com", "192.0.2.83", "300", "", "")}},
 		{ID: "na0", Why: "28 neighbour a0", Lines: []Line{A("a0.example.com", "192.0.2.84", "300", "", "")}},
 		{ID: "naa", Why: "28 neighbour aa", Lines: []Line{A("aa.example.com", "192.0.2.85", "300", "", "")}},
-		{ID: "naba", Core: true, Why: "28 neighbour ab.a (below a)", Lines: []Line{A("ab.a.example.com", "192.0.2.86", "300", "", "")}},
-		{ID: "na_aa", Core: true, Why: "28 a tagged aa", Lines: []Line{A("a.example.com", "192.0.2.87", "300", "aa", "")}},
+		{ID: "naba", Quick: true, Core: true, Why: "28 neighbour ab.a (below a)", Lines: []Line{A("ab.a.example.com", "192.0.2.86", "300", "", "")}},
+		{ID: "na_aa", Quick: true, Core: true, Why: "28 a tagged aa", Lines: []Line{A("a.example.com", "192.0.2.87", "300", "aa", "")}},
 		{ID: "na_bb", Core: true, Why: "28 a tagged bb", Lines: []Line{A("a.example.com", "192.0.2.88", "300", "bb", "")}},
-		{ID: "ecs", Core: true, ECSMap: true, Why: "29 client-subnet map",
+		{ID: "ecs", Quick: true, Core: true, ECSMap: true, Why: "29 client-subnet map",
 			Lines:     []Line{Map('8', "example.com", "c1"), Map('8', "*.example.com", "c1"), Net("aa", "10.0.0.0/8", "c1"), Net("bb", "2001:db8::/32", "c1")},
 			MayLocate: map[string][]string{ClEcsA: {"aa"}, ClEcs6: {"bb"}}},
-		{ID: "m2", Core: true, Why: "30 closer wildcard map that re-locates the aa client under w",
+		{ID: "m2", Quick: true, Core: true, Why: "30 closer wildcard map that re-locates the aa client under w",
 			Lines:     []Line{Map('M', "*.w.example.com", "m2"), Net("bb", "10.0.0.0/8", "m2")},
 			MayLocate: map[string][]string{ClAA: {"bb"}, ClEcsA: {"bb"}}},
 		{ID: "mxw", Why: "30' closer exact map below a wildcard map",
 			Lines:     []Line{Map('M', "x.w.example.com", "m3"), Net("bb", "10.0.0.0/8", "m3")},
 			MayLocate: map[string][]string{ClAA: {"bb"}, ClEcsA: {"bb"}}},
-		{ID: "locz", Core: true, Why: "31 zone that exists only for one location",
+		{ID: "locz", Quick: true, Core: true, Why: "31 zone that exists only for one location",
 			Lines: []Line{SOA("loc.example.com", "aa"), NS("loc.example.com", "", "a.ns.example.com", "3600", "aa")}},
 		{ID: "hloc", Why: "31' data in the located zone", Lines: []Line{A("h.loc.example.com", "192.0.2.90", "300", "aa", "")}},
 		{ID: "aplusb", Why: "32 owner with a non-wild-safe label", Lines: []Line{A("a+b.w.example.com", "192.0.2.13", "300", "", "")}},
-		{ID: "no_mwild", Core: true, Why: "33 wildcard map removed: names below the apex have no map", Remove: []string{"M*.example.com,m1"}},
-		{ID: "no_mexact", Core: true, Why: "33 exact map removed: wildcard map at the queried name without exact map", Remove: []string{"Mexample.com,m1"}},
-		{ID: "no_m1nets", Core: true, Why: "C03 surrounding: a map that names select but that holds no subnet at all (its lookups must not stray into a neighbouring map)",
+		{ID: "no_mwild", Quick: true, Core: true, Why: "33 wildcard map removed: names below the apex have no map", Remove: []string{"M*.example.com,m1"}},
+		{ID: "no_mexact", Quick: true, Core: true, Why: "33 exact map removed: wildcard map at the queried name without exact map", Remove: []string{"Mexample.com,m1"}},
+		{ID: "no_m1nets", Quick: true, Core: true, Why: "C03 surrounding: a map that names select but that holds no subnet at all (its lookups must not stray into a neighbouring map)",
 			Remove: []string{"%aa,10.0.0.0/8,m1", "%bb,192.168.0.0/16,m1"}},
-		{ID: "d6m1", Core: true, Why: "34 lone IPv6 default route in the applicable map", Lines: []Line{Net("cc", "::/0", "m1")}, MayLocate: everyClient("cc")},
+		{ID: "d6m1", Quick: true, Core: true, Why: "34 lone IPv6 default route in the applicable map", Lines: []Line{Net("cc", "::/0", "m1")}, MayLocate: everyClient("cc")},
 		{ID: "d4m1", Core: true, Why: "34 IPv4 default route in the applicable map", Lines: []Line{Net("cc", "0.0.0.0/0", "m1")}, MayLocate: everyClient("cc")},
-		{ID: "d6c1", Core: true, Why: "34 IPv6 default route in a map sorting before the applicable one (the client-subnet map when 29 is present)", Lines: []Line{Net("cc", "::/0", "c1")}, MayLocate: everyClient("cc")},
+		{ID: "d6c1", Quick: true, Core: true, Why: "34 IPv6 default route in a map sorting before the applicable one (the client-subnet map when 29 is present)", Lines: []Line{Net("cc", "::/0", "c1")}, MayLocate: everyClient("cc")},
 		{ID: "d4c1", Why: "34 IPv4 default route in c1", Lines: []Line{Net("cc", "0.0.0.0/0", "c1")}, MayLocate: everyClient("cc")},
 		{ID: "d6z1", Why: "34 IPv6 default route in a map sorting after the applicable one", Lines: []Line{Net("cc", "::/0", "z1")}, MayLocate: everyClient("cc")},
-		{ID: "rootns", Core: true, Why: "35 root delegation (also: a root-owned record next to the range points on v1 keys)",
+		{ID: "rootns", Quick: true, Core: true, Why: "35 root delegation (also: a root-owned record next to the range points on v1 keys)",
 			Lines: []Line{NS("", "", "a.root-servers.net", "3600", "")}, Conflicts: []string{"rootz"}},
 		{ID: "rootz", Why: "35 root zone", Lines: []Line{Dot("", "", "a.root-servers.net", "3600", "")}},
 	}
